@@ -226,9 +226,8 @@ def classify_known(ck, pt, model, c, st):
         if f:
             return f
     if c.kind == "illtyped":
-        # the only ill-typed family the pinned compiler accepts: arms of different concrete types in an If/ElseIf chain
-        if c.dname == "if-elseif-arms-mixed":
-            return ck.match_known(lambda f: f["id"] == "if-elseif-mixed-arm-types")
+        # no known class: every directed typing defect must be rejected by the compiler (the one acceptance of the pinned
+        # tree, mixed If/ElseIf arms, was repaired by /repo ef38ba1), so an accepted-and-misbehaving one is a VIOLATION
         return None
     if isinstance(c, DenseCase):
         # class decided by the faithful compile model, so that a changed optimiser is never mistaken for the pinned one
